@@ -4,7 +4,10 @@
 //! -   letting the last parked worker take action, and
 //! -   letting workers and mutators notify workers when workers are given things to do.
 
+#[cfg(not(mmtk_verif))]
 use std::sync::{Condvar, Mutex};
+#[cfg(mmtk_verif)]
+use crate::util::verif::sync::{Condvar, Mutex};
 
 use super::{
     worker::WorkerShouldExit,
